@@ -92,6 +92,10 @@ func NewPreparedStatement(flags *option.Flags, expr parser.StatementPreparation)
 type ReplaceValues struct {
 	Values []parser.QueryExpression
 	Names  map[string]int
+
+	// The replace values that were in effect where these values were written: a placeholder among Values belongs to
+	// the statement that executes, not to the executed one.
+	outer interface{}
 }
 
 func NewReplaceValues(replace []parser.ReplaceValue) *ReplaceValues {
